@@ -38,6 +38,12 @@ fn family(n: usize, seed: u64) -> (Vec<u8>, Vec<Vec<Vec<u8>>>) {
                     s[*p] = comp(s[*p]);
                 }
             }
+            // a site with three alleles, one with four, and a stretch that every fifth sample lacks
+            s[125] = lo::alt_base(g[125], (i % 3) as u8);
+            s[175] = [b'A', b'C', b'G', b'T'][(i + i / 4) % 4];
+            if i % 5 == 4 {
+                s.drain(215..240);
+            }
             vec![if i % 3 == 1 { rc_str(&s) } else { s }]
         })
         .collect();
